@@ -176,13 +176,16 @@ impl Prop for C11 {
         for c in ["supply:shuffled", "supply:sorted", "nodes:2", "nodes:3", "nodes:many", "index_left:len2", "index_left:len3", "index_left:long", "index_left:at-element", "index_left:below", "index_left:above"] {
             v.push(c.to_string());
         }
+        for h in ["as-built", "restored-from-json", "restored-from-pickle-state"] {
+            v.push(format!("looked-up:{}", h));
+        }
         v
     }
     fn min_evaluations(&self, tier: Tier) -> u64 {
         tier.pick(500_000, 50_000_000)
     }
     fn rule(&self) -> String {
-        "Seeded curves for each of the 5 rules: 2..12 (thorough 2..40) nodes, spacings from 1 second and 1 day to 10 years (second-resolution timestamps), positive values (discount-factor-like, near one, arbitrary, spanning 1e-6..1e6), shuffled supply order, built through CurveDF::try_new and through the Python-facing constructor (verif hook). Queries: every node, +-1 s and +-1 day around every node, midpoints, random interior points, far before / after. Each value against the rule's closed form on the oracle-selected interval (linear scan), node values at node dates, [min,max] containment for linear / log-linear, and node_index; separately index_left on strictly increasing random float lists of length 2..64. distinct_nontrivial = distinct (rule, node count, spacing kind, value kind, supply permutation hash).".into()
+        "Seeded curves for each of the 5 rules: 2..12 (thorough 2..40) nodes, spacings from 1 second and 1 day to 10 years (second-resolution timestamps), positive values (discount-factor-like, near one, arbitrary, spanning 1e-6..1e6), shuffled supply order, built through CurveDF::try_new and through the Python-facing constructor (verif hook); two in three of the latter are looked up only after being restored from JSON or from the pickle state. Queries: every node, +-1 s and +-1 day around every node, midpoints, random interior points, far before / after. Each value against the rule's closed form on the oracle-selected interval (linear scan), node values at node dates, [min,max] containment for linear / log-linear, and node_index; separately index_left on strictly increasing random float lists of length 2..64. distinct_nontrivial = distinct (rule, node count, spacing kind, value kind, supply permutation hash).".into()
     }
     fn assumptions(&self) -> Vec<String> {
         vec![
@@ -237,12 +240,37 @@ impl Prop for C11 {
             ctx.class(&format!("constructor:{}:python-facing", rule));
             match guarded(|| VerifCurve::new(nodes_numbers(&c), rule, ADOrder::Zero, &c.id, Convention::Act365F, Modifier::F, CalType::Cal(cal.clone()), c.index_base)) {
                 Caught::Ok(Ok(vc)) => {
+                    // a curve that has been saved and restored is still a curve: two in three of these are looked
+                    // up only after a trip through JSON or through the pickle state
+                    let how = ["as-built", "restored-from-json", "restored-from-pickle-state"][(idx % 3) as usize];
+                    ctx.class(&format!("looked-up:{}", how));
+                    let restored = guarded(|| match idx % 3 {
+                        1 => vc.to_json_plain().and_then(|j| VerifCurve::from_json_plain(&j)),
+                        2 => VerifCurve::from_state_bytes(&vc.getstate_bytes()),
+                        _ => Ok(vc.clone()),
+                    });
+                    let vc = match restored {
+                        Caught::Ok(Ok(v)) => v,
+                        Caught::Ok(Err(e)) => {
+                            ctx.violation(&format!("C11|{}|error", how), json!({"curve": c.describe(), "error": e}));
+                            return;
+                        }
+                        Caught::Panic { loc, msg } => {
+                            if is_harness_location(&loc) {
+                                ctx.harness_error(format!("{} {}", loc, msg));
+                            } else {
+                                ctx.violation(&format!("C11|panic|{}|{}", how, short_loc(&loc)), json!({"curve": c.describe(), "message": msg}));
+                            }
+                            return;
+                        }
+                    };
+                    let label = format!("Python-facing Curve ({})", how);
                     for (x, cls) in qs.iter() {
                         let dt = ts_to_ndt(*x);
                         match guarded(|| (vc.value(&dt), vc.node_index(*x))) {
                             Caught::Ok((v, i)) => {
                                 ctx.eval(2);
-                                if !judge(ctx, &c, "Python-facing Curve", *x, cls, num_val(&v), i) {
+                                if !judge(ctx, &c, &label, *x, cls, num_val(&v), i) {
                                     return;
                                 }
                             }
